@@ -121,6 +121,16 @@ def run_once(ctx):
         if g["inconclusive"]:
             res.inconclusive += 1
             res.inconclusive_notes.append(g["inconclusive"])
+    # max_connections governs how many connections are served, through every kind of ending (slot driver of C19)
+    from .. import slots
+    so = slots.run(binary, hooks, ctx.seed, True)
+    res.evaluations += so["opened"]
+    res.distinct.add("max_connections-slots")
+    for sig, detail in so["findings"]:
+        res.findings.append(Finding("boot:max_connections:" + sig, detail, {"engine": "slots"}))
+    if so["inconclusive"]:
+        res.inconclusive += 1
+        res.inconclusive_notes.append(so["inconclusive"])
     # (f) command line overrides
     for label, ok in boot.cli_overrides(binary, hooks):
         res.evaluations += 1
